@@ -128,6 +128,16 @@ fn o_type_pair(c: &TypePair, st: &mut Stats) -> Result<(), String> {
     Ok(())
 }
 
+fn type_pair_in_run(idx: u64) -> Option<ProgramCase> {
+    let n = PAIR_ALPHABET.len() as u64;
+    let k = idx % 8;
+    let fill = [b'a', b'1'][((idx / 8) % 2) as usize] as char;
+    let pair = idx / 16;
+    let (a, b) = (PAIR_ALPHABET[(pair / n) as usize] as char, PAIR_ALPHABET[(pair % n) as usize] as char);
+    let ty = format!("{}{a}{b}{}", fill.to_string().repeat(1 + k as usize), fill.to_string().repeat(9));
+    Some(ProgramCase { program: crate::buildprog::Program { ty, name: "n".into(), ops: vec![] }, typed: false })
+}
+
 pub fn sections() -> Vec<Box<dyn Section>> {
     vec![
         Box::new(Random {
@@ -160,6 +170,14 @@ pub fn sections() -> Vec<Box<dyn Section>> {
             make: Box::new(|t: Tier, i| strata_make(&strata(t.pick(4, 5), t.pick(5, 6)), i)),
             oracle: o_string,
             required: vec!["both-accept", "both-refuse"],
+            complete: true,
+        }),
+        Box::new(Enumerated {
+            name: "every-pair-at-every-offset-inside-a-long-type".into(),
+            total: Box::new(|_| (PAIR_ALPHABET.len() * PAIR_ALPHABET.len() * 16) as u64),
+            make: Box::new(|_, i| type_pair_in_run(i)),
+            oracle: o_program,
+            required: vec!["all-build", "valid-type-with-upper-case"],
             complete: true,
         }),
         Box::new(Enumerated {
